@@ -819,7 +819,7 @@ static void vo_jump(int off) {
     vo_others_kept(VO_NDATA);
 }
 void h_vo_jump(void) { int k = nd_int();
-    if (k == 0) vo_jump(1); else if (k == 1) vo_jump(2); else if (k == 2) vo_jump(4); else if (k == 3) vo_jump(-1); else if (k == 4) vo_jump(-3); else vo_jump(-2); }
+    if (k == 0) vo_jump(1); else if (k == 1) vo_jump(2); else if (k == 2) vo_jump(3); else if (k == 3) vo_jump(-1); else if (k == 4) vo_jump(-3); else vo_jump(-2); }
 /* the type of the tested slot is enumerated (all 16 types, a boolean with both payloads) and CONCRETE in each run, because a
  * symbolic branch would make the program counter - and with it instruction dispatch - symbolic; the payload stays symbolic */
 static void vo_jump_cond(uint32_t op, uint32_t a, int off, int type, int bpayload) {
@@ -1086,4 +1086,104 @@ static void vo_make(uint32_t d, int move_unused) {
     REACH("vm.op make");
 }
 void h_vo_make(void) { int k = nd_int(); if (k == 0) vo_make(0, 0); else if (k == 1) vo_make(3, 0); else vo_make(1, 0); }
+#endif
+
+#ifdef VO_RETURN_CALLER
+/* RETURN D / RETURN_NIL into a calling Janet frame: the value arrives in the destination register of the caller's CALL
+ * instruction and the caller continues after that instruction.  Two frames: caller (frame 0) and callee (frame 1). */
+#define VO_F1 (JANET_FRAME_SIZE + VO_SLOTS + JANET_FRAME_SIZE)
+static struct { JanetStackFrame fr0; char pad0[JANET_FRAME_SIZE * sizeof(Janet) - sizeof(JanetStackFrame)]; Janet slots0[VO_SLOTS];
+                JanetStackFrame fr1; char pad1[JANET_FRAME_SIZE * sizeof(Janet) - sizeof(JanetStackFrame)]; Janet slots1[VO_SLOTS + JANET_FRAME_SIZE]; } vo_mem3;
+static uint32_t vo_code2[4];
+static JanetFuncDef vo_def2; static JanetFunction vo_func2;
+static Janet vo_old0[VO_SLOTS], vo_old1[VO_SLOTS + JANET_FRAME_SIZE];
+static void vo_return_caller(uint32_t nil, uint32_t d, uint32_t dst) {
+    vo_setup(nil ? VO_WD(JOP_RETURN_NIL, 0) : VO_WD(JOP_RETURN, d), d, 0, 0);
+    for (int i = 0; i < 4; i++) vo_code2[i] = 0x80 | JOP_NOOP;
+    vo_code2[1] = VO_WE(JOP_CALL, dst, 0);
+    vo_def2.bytecode = vo_code2; vo_def2.bytecode_length = 4; vo_def2.slotcount = VO_SLOTS;
+    vo_func2.def = &vo_def2;
+    vo_fiber.data = (Janet *) &vo_mem3;
+    vo_fiber.capacity = VO_F1 + VO_SLOTS + JANET_FRAME_SIZE;
+    vo_fiber.frame = VO_F1;
+    vo_fiber.stackstart = VO_F1 + VO_SLOTS + JANET_FRAME_SIZE;
+    vo_fiber.stacktop = vo_fiber.stackstart;
+    vo_mem3.fr0.func = &vo_func2; vo_mem3.fr0.pc = vo_code2 + 1; vo_mem3.fr0.env = (JanetFuncEnv *)0; vo_mem3.fr0.prevframe = 0; vo_mem3.fr0.flags = JANET_STACKFRAME_ENTRANCE;
+    vo_mem3.fr1.func = vo_func; vo_mem3.fr1.pc = vo_code + VO_PC0; vo_mem3.fr1.env = (JanetFuncEnv *)0; vo_mem3.fr1.prevframe = JANET_FRAME_SIZE; vo_mem3.fr1.flags = 0;
+    for (int i = 0; i < VO_SLOTS; i++) { vo_mem3.slots0[i] = vo_any(); vo_old0[i] = vo_mem3.slots0[i]; }
+    for (int i = 0; i < VO_SLOTS + JANET_FRAME_SIZE; i++) { vo_mem3.slots1[i] = vo_any(); vo_old1[i] = vo_mem3.slots1[i]; }
+    JanetSignal sig = vo_run();
+    __CPROVER_assert(sig == JANET_SIGNAL_DEBUG, "vm.op: returning into a calling frame does not leave the interpreter");
+    __CPROVER_assert(vo_fiber.frame == JANET_FRAME_SIZE && vo_fiber.data == (Janet *) &vo_mem3, "vm.op: the callee's frame is popped and the caller's frame is current again");
+    __CPROVER_assert(vo_fiber.stackstart == VO_F1 && vo_fiber.stacktop == VO_F1, "vm.op: the caller's argument area is empty and starts where the callee's frame was");
+    __CPROVER_assert(vo_mem3.fr0.pc == vo_code2 + 2, "vm.op: the caller continues after its call instruction");
+    __CPROVER_assert(vo_mem3.fr0.func == &vo_func2 && vo_mem3.fr0.prevframe == 0 && vo_mem3.fr0.flags == JANET_STACKFRAME_ENTRANCE && vo_mem3.fr0.env == (JanetFuncEnv *)0, "vm.op: the caller's frame header is otherwise untouched");
+    __CPROVER_assert(same(vo_mem3.slots0[dst], nil ? vo_nil() : vo_old1[d]), "vm.op: the returned value (or nil) arrives unchanged in the destination register of the caller's call instruction");
+    for (uint32_t k = 0; k < VO_SLOTS; k++) if (k != dst) __CPROVER_assert(same(vo_mem3.slots0[k], vo_old0[k]), "vm.op: every other slot of the caller keeps its value");
+    __CPROVER_assert(vo_fiber.child == (JanetFiber *)0, "vm.op: no child fiber is chained");
+    REACH("vm.op return to caller");
+}
+void h_vo_return_caller(void) { int k = nd_int();
+    if (k == 0) vo_return_caller(0, 0, 0); else if (k == 1) vo_return_caller(0, 3, 1); else if (k == 2) vo_return_caller(0, 1, 3); else if (k == 3) vo_return_caller(1, 0, 2); else vo_return_caller(1, 0, 0); }
+#endif
+
+#ifdef VO_CLOSURE
+/* CLOSURE A E: a new function for the E-th nested definition of the running function.  Each environment slot i of the
+ * new function is, as the definition says (environments[i]): -1 = the running frame's own environment (created on first
+ * capture, shared by all closures of that frame), k >= 0 = the running function's k-th environment. */
+static JanetFuncDef vo_child_def, vo_other_def; static int32_t vo_child_envs[3]; static JanetFuncDef *vo_defs[2];
+static JanetFuncEnv vo_penv0, vo_penv1, vo_frame_env, vo_new_env;
+static JanetFunction *vo_new_fn;
+static int g_alloc_fn_calls, g_alloc_env_calls, g_alloc_other; static size_t g_alloc_fn_size, g_alloc_env_size;
+void *vo_gcalloc_stub(enum JanetMemoryType type, size_t size) {
+    if (type == JANET_MEMORY_FUNCTION) { g_alloc_fn_calls++; g_alloc_fn_size = size; return vo_new_fn; }
+    if (type == JANET_MEMORY_FUNCENV) { g_alloc_env_calls++; g_alloc_env_size = size; return &vo_new_env; }
+    g_alloc_other++;
+    return (void *)0;
+}
+static void vo_closure(uint32_t a, uint32_t e, int32_t elen, int32_t inh0, int32_t inh1, int have_env) {
+    vo_setup(VO_WE(JOP_CLOSURE, a, e), a, 0, 0);
+    JanetFunction *f = malloc(sizeof(JanetFunction) + 2 * sizeof(JanetFuncEnv *));
+    __CPROVER_assume(f != (JanetFunction *)0);
+    f->def = &vo_def; f->gc.flags = JANET_MEMORY_FUNCTION; f->envs[0] = &vo_penv0; f->envs[1] = &vo_penv1;
+    vo_def.environments_length = 2;
+    vo_def.defs = vo_defs; vo_def.defs_length = 2;
+    vo_defs[0] = &vo_other_def; vo_defs[1] = &vo_child_def;
+    vo_other_def.environments_length = 0; vo_other_def.environments = (int32_t *)0;
+    vo_child_envs[0] = inh0; vo_child_envs[1] = inh1; vo_child_envs[2] = 0;
+    vo_child_def.environments = vo_child_envs; vo_child_def.environments_length = elen;
+    vo_func = f; vo_mem.fr.func = f;
+    vo_frame_env.offset = JANET_FRAME_SIZE; vo_frame_env.length = VO_SLOTS; vo_frame_env.as.fiber = &vo_fiber;
+    vo_mem.fr.env = have_env ? &vo_frame_env : (JanetFuncEnv *)0;
+    vo_new_fn = malloc(sizeof(JanetFunction) + 3 * sizeof(JanetFuncEnv *));
+    __CPROVER_assume(vo_new_fn != (JanetFunction *)0);
+    vo_new_fn->def = (JanetFuncDef *)0; vo_new_fn->envs[0] = vo_new_fn->envs[1] = vo_new_fn->envs[2] = (JanetFuncEnv *)0;
+    vo_new_env.offset = 0; vo_new_env.length = 0; vo_new_env.as.fiber = (JanetFiber *)0;
+    g_alloc_fn_calls = g_alloc_env_calls = g_alloc_other = 0;
+    JanetSignal sig = vo_run();
+    __CPROVER_assert(sig == JANET_SIGNAL_DEBUG && vo_mem.fr.pc == vo_code + VO_PC0 + 1, "vm.op: execution continues at the next instruction");
+    __CPROVER_assert(e < 2, "vm.op: a definition index outside the function's nested definitions raises");
+    int32_t n = e == 1 ? elen : 0;
+    __CPROVER_assert(g_alloc_fn_calls == 1 && g_alloc_other == 0 && g_alloc_fn_size == sizeof(JanetFunction) + (size_t) n * sizeof(JanetFuncEnv *), "vm.op: exactly one function object is allocated, with room for the definition's environments");
+    __CPROVER_assert(vo_mem.slots[a].type == JANET_FUNCTION && vo_mem.slots[a].as.pointer == (void *) vo_new_fn, "vm.op: the destination slot holds the new function");
+    __CPROVER_assert(e >= 2 || vo_new_fn->def == vo_defs[e], "vm.op: the new function runs the E-th nested definition");
+    int captures = n > 0 && (inh0 == -1 || inh0 >= 2 || (n > 1 && (inh1 == -1 || inh1 >= 2)));
+    JanetFuncEnv *own = have_env ? &vo_frame_env : &vo_new_env;
+    if (captures) {
+        __CPROVER_assert(vo_mem.fr.env == own && g_alloc_env_calls == (have_env ? 0 : 1), "vm.op: the running frame has one environment, created on first capture and reused afterwards");
+        __CPROVER_assert(own->offset == JANET_FRAME_SIZE && own->as.fiber == &vo_fiber && own->length == VO_SLOTS, "vm.op: the frame's environment refers to the running frame: this fiber, this frame, all its slots");
+        __CPROVER_assert(have_env || g_alloc_env_size == sizeof(JanetFuncEnv), "vm.op: a new environment has the size of an environment");
+    } else {
+        __CPROVER_assert(vo_mem.fr.env == (have_env ? &vo_frame_env : (JanetFuncEnv *)0) && g_alloc_env_calls == 0, "vm.op: without a capture of the running frame no environment is created");
+    }
+    if (n > 0) __CPROVER_assert(vo_new_fn->envs[0] == ((inh0 == -1 || inh0 >= 2) ? own : inh0 == 0 ? &vo_penv0 : &vo_penv1), "vm.op: environment 0 of the new function is the one its definition names");
+    if (n > 1) __CPROVER_assert(vo_new_fn->envs[1] == ((inh1 == -1 || inh1 >= 2) ? own : inh1 == 0 ? &vo_penv0 : &vo_penv1), "vm.op: environment 1 of the new function is the one its definition names");
+    __CPROVER_assert(vo_mem.fr.func == vo_func && vo_mem.fr.prevframe == 0 && vo_fiber.frame == JANET_FRAME_SIZE && vo_fiber.stacktop == vo_fiber.stackstart && f->envs[0] == &vo_penv0 && f->envs[1] == &vo_penv1, "vm.op: the running function and the frame are otherwise untouched");
+    vo_others_kept(a);
+    REACH("vm.op closure");
+}
+void h_vo_closure(void) { int k = nd_int();
+    if (k == 0) vo_closure(0, 1, 0, 0, 0, 0); else if (k == 1) vo_closure(1, 1, 1, -1, 0, 0); else if (k == 2) vo_closure(0, 1, 1, -1, 0, 1); else if (k == 3) vo_closure(3, 1, 2, 1, -1, 0);
+    else if (k == 4) vo_closure(0, 1, 2, 0, 1, 0); else if (k == 5) vo_closure(2, 1, 2, -1, -1, 0); else if (k == 6) vo_closure(0, 0, 0, 0, 0, 1); else if (k == 7) vo_closure(0, 1, 2, 1, 0, 1);
+    else if (k == 8) vo_closure(0, 2, 0, 0, 0, 0); else vo_closure(0, 0xFFFF, 0, 0, 0, 0); }
 #endif
